@@ -328,23 +328,3 @@ Lemma floatint_long32_refuted :
   exists op f z, dbl_ok f /\
     cmp_floatint f_llp64_noint fop op f (of_Z 30 z) <> Some (fop op f z).
 Proof. exists OpLt, (DFin (2 ^ 45) 0), (2 ^ 40). split; [reflexivity|]. vm_compute. discriminate. Qed.
-
-(* ---- the oracle is the order of the rationals ---- *)
-From Coq Require Import QArith.
-Open Scope Z_scope.
-
-Definition q_of (n k : Z) : Q := Qmake n (Z.to_pos (2 ^ k)).
-
-Lemma fz_cmp_rational n k z : 0 <= k ->
-  fz_cmp (DFin n k) z = Some (Qcompare (q_of n k) (inject_Z z)).
-Proof.
-  intros Hk. unfold fz_cmp, Qcompare, q_of, inject_Z. cbn [Qnum Qden].
-  rewrite Z2Pos.id by (apply Z.pow_pos_nonneg; lia). rewrite Z.mul_1_r. reflexivity.
-Qed.
-
-Lemma zf_cmp_rational n k z : 0 <= k ->
-  zf_cmp z (DFin n k) = Some (Qcompare (inject_Z z) (q_of n k)).
-Proof.
-  intros Hk. unfold zf_cmp, Qcompare, q_of, inject_Z. cbn [Qnum Qden].
-  rewrite Z2Pos.id by (apply Z.pow_pos_nonneg; lia). rewrite Z.mul_1_r. reflexivity.
-Qed.
